@@ -173,6 +173,7 @@ func runHasNextCase(c *Ctx, kind string, opts int, pattern string, input []rune)
 }
 
 func propC05(c *Ctx) {
+	propScaleHistories(c)
 	kinds := []string{"g", "e", "m", "c:44:34"}
 	optSets := []int{0, 2 | 4 | 8 | 64, 127}
 	for _, k := range kinds {
